@@ -126,3 +126,36 @@ var hits atomic.Int64
 
 // M9Counter counts calls in a package-level counter.
 func M9Counter() int64 { return hits.Add(1) }
+
+// L1Bad keeps one pair for all entries.
+func L1Bad(keys []string) [][]string {
+	out := make([][]string, len(keys))
+	pair := make([]string, 2)
+	for i, k := range keys {
+		pair[0], pair[1] = k, k
+		out[i] = pair
+	}
+	return out
+}
+
+// L1Good allocates a pair per entry.
+func L1Good(keys []string) [][]string {
+	out := make([][]string, len(keys))
+	for i, k := range keys {
+		pair := make([]string, 2)
+		pair[0], pair[1] = k, k
+		out[i] = pair
+	}
+	return out
+}
+
+// L1Spread reuses a buffer but copies its content out.
+func L1Spread(keys []string) []string {
+	var out []string
+	buf := make([]string, 2)
+	for _, k := range keys {
+		buf[0], buf[1] = k, k
+		out = append(out, buf...)
+	}
+	return out
+}
